@@ -131,6 +131,7 @@ def decimal_const(prog, fn, o):
 
 
 def run(prog, rep, tier='quick', config='default'):
+    r2j(prog, rep)
     # ------------------------------------------------------------------ R2a
     wfns = {}
     for fn in prog.product_fns():
@@ -396,3 +397,51 @@ def run(prog, rep, tier='quick', config='default'):
             rep.violation('R2e', 'anchor-lost:force-reads', fn=val.name, detail='anchor lost: no read of SFLInput.force in the bookkeeping')
         if hits == 0:
             rep.violation('R2d', 'anchor-lost:tolerance-comparison', fn=val.name, detail='anchor lost: comparison of |computed - specified| with a Decimal constant')
+
+
+def r2j(prog, rep):
+    """a superficial-loss value supplied in the CSV reaches the ledger whatever it is: on its way from the parsed cell to the
+    transaction record (CSV row -> CsvTx -> Tx) it is neither dropped through an Option filter nor made conditional on its own
+    amount or force marker. (Otherwise an un-forced `0` on a superficial sale is never seen by the 0.001 check.)"""
+    SFL_FIELDS = {'superficial_loss', 'force'}
+    DROP = {'filter', 'and_then', 'take_if', 'xor', 'or', 'or_else', 'zip', 'take', 'replace', 'unwrap_or', 'unwrap_or_else', 'unwrap_or_default',
+            'is_some_and', 'map_or', 'map_or_else', 'then', 'then_some', 'filter_map'}
+    n = 0
+    for f in prog.product_fns():
+        if not re.match(r'^(portfolio::io::tx_csv|portfolio::model::tx)::|^<portfolio::model::tx::', f.name) or mir.is_testsupport(f.name):
+            continue
+        for i, b in f.blocks.items():
+            for st in b['stmts']:
+                r = st['r']
+                if r['rv'] != 'agg' or 'specified_superficial_loss' not in r.get('fields', []):
+                    continue
+                o = r['ops'][r['fields'].index('specified_superficial_loss')]
+                if not is_place(o):
+                    continue
+                org = mir.provenance(f, o, follow_all_call_args=True)
+                from_input = any(x.short == 'parse_csv_superficial_loss' for x in org.calls) or \
+                    any(fl == 'specified_superficial_loss' for (_, fl) in org.fields)
+                if not from_input:
+                    continue
+                n += 1
+                k = '%s|supplied-loss-carried-whatever-its-value' % f.name.split('::{')[0]
+                bad = [x for x in org.calls if x.short in DROP and x.decl.startswith('std::')]
+                why = None
+                if bad:
+                    why = 'it passes through Option::%s' % bad[0].short
+                for l in org.locals:
+                    for (bb, idx, kind, node) in f.defs.get(l, []):
+                        if kind != 'stmt' or node['r']['rv'] != 'agg' or not re.search(r'Option::(None|Some)$', node['r']['kind']):
+                            continue
+                        for (sbb, discr, vals, neg) in f.conditions_at(bb):
+                            d = mir.provenance(f, discr, follow_all_call_args=True)
+                            if any(fl in SFL_FIELDS and 'SFLInput' in of for (of, fl) in d.fields):
+                                why = why or 'whether it is kept depends on its own amount / force marker (condition at %s)' % f.where(f.blocks[sbb]['term'])
+                if why:
+                    rep.violation('R2j', k, where=f.where(st), fn=f.name,
+                                  detail='the supplied superficial-loss value does not reach the transaction record unconditionally: %s. A value that is '
+                                         'dropped here is never compared with the computed loss' % why)
+                else:
+                    rep.ok('R2j', k, where=f.where(st), fn=f.name, detail='the parsed cell / CsvTx field is moved into the record as it is')
+    if n < 2:
+        rep.violation('R2j', 'anchor-lost:supplied-loss-transport', detail='anchor lost: only %d records built from a supplied superficial-loss value found' % n)
